@@ -315,12 +315,12 @@ def gen_precomp_directed(rng, ring, lo, hi, quick, cases):
         if kmax < 3:
             continue
         ks = list(range(3, kmax + 1))
-        if quick and len(ks) > 6:
-            ks = ks[-4:] + [rng.choice(ks[:-4]), rng.choice(ks[:-4])]
+        if quick and len(ks) > 4:
+            ks = ks[-3:] + [rng.choice(ks[:-3])]
         for k in ks:
             base = 1 << (k - 1)
-            ds = [1, 2, 3, 4, 5, 7, 9] + [rng.range(1, max(1, base // 8)) for _ in range(6 if quick else 16)] \
-                + [rng.range(1, max(1, base // 64)) for _ in range(3 if quick else 8)]
+            ds = ([1, 2, 3, 5] if quick else [1, 2, 3, 4, 5, 7, 9]) + [rng.range(1, max(1, base // 8)) for _ in range(4 if quick else 16)] \
+                + [rng.range(1, max(1, base // 64)) for _ in range(2 if quick else 8)]
             ms = {base + d for d in ds} | {2 * base - d for d in (1, 2, 3, rng.range(1, max(1, base // 4)))}
             for m in sorted(ms):
                 if lo <= m <= hi and m >= 3 and m.bit_length() <= lim:
@@ -463,7 +463,7 @@ _orig_load_known = vf.load_known
 vf.load_known = load_known_with_fragment
 
 
-def run_parallel(binary, lines, timeout=1500, nproc=8):
+def run_parallel(binary, lines, timeout=1500, nproc=12):
     """run a line-protocol driver on `lines`, split into contiguous chunks over nproc processes (order kept)"""
     import subprocess
     if len(lines) < 2000:
@@ -524,8 +524,11 @@ def main(tier, replay=None):
     chk.cov["advertised_bounds"] = {r: list(v) for r, v in info.items()}
     write_params(info)
     # 1. proofs
+    import time as _t
+    _t0 = _t.time()
     res = vf.coq_check_props(AREA)
     chk.proof_result(res, AREA)
+    chk.cov.setdefault("phase_seconds", {})["coq"] = round(_t.time() - _t0, 1); _t0 = _t.time()
     # 2. model driver
     drv, l1 = vf.ocaml_build(AREA) if os.path.exists(os.path.join(vf.coq_dir(AREA), "ocaml", "model.ml")) else (None, "extraction did not run")
     if drv is None:
@@ -577,6 +580,7 @@ def main(tier, replay=None):
                 bb = rng.choice([mx, mx - 1, rng.range(2, mx), rng.range(2, min(mx, 1000))])
                 aa = rng.choice([0, 1, bb - 1, bb // 2, rng.range(0, bb - 1)])
                 cases.append((ring, 2, "gcdext", [aa, bb]))
+    chk.cov["phase_seconds"]["generate"] = round(_t.time() - _t0, 1); _t0 = _t.time()
     impl_in = "".join("%s %d %s %s\n" % (r, p, op, " ".join(str(x) for x in a)) for r, p, op, a in cases)
     rc, iout, ierr = vf.run_lines(himpl, impl_in, timeout=1500)
     if rc != 0 or len(iout) != len(cases):
@@ -591,6 +595,7 @@ def main(tier, replay=None):
             chk.broke("model driver failed (rc=%s, %d/%d lines)" % (rc, len(mo), len(midx)), merr[-2000:])
         else:
             mout = dict(zip(midx, mo))
+    chk.cov["phase_seconds"]["run_impl_and_model"] = round(_t.time() - _t0, 1); _t0 = _t.time()
     # 4. three-way comparison
     nbroke = 0
     dist = {}
@@ -641,6 +646,7 @@ def main(tier, replay=None):
         for f in chk.failing:
             if f["site"] not in seen:
                 seen.add(f["site"]); vf.log("  e.g.", f["site"], f["case"], "exp", f["expected"], "got", f["observed"])
+    chk.cov["phase_seconds"]["compare"] = round(_t.time() - _t0, 1)
     chk.cov["rule"] = ("every ring type (50) x moduli {min..min+2, max-2..max, prevprime(max), 2^k, 2^k+-1, sqrt(max)+-1, random} "
                        "(Log16: primes) x every call form x operands {0,1,lo,hi,p/2,p/2+-1,sqrt p,random} incl. the corner triples "
                        "(hi,hi,hi),(hi,hi,0),(lo,lo,hi) and directed pairs with a*b = +-s (mod p), s small, large quotient "
